@@ -302,7 +302,7 @@ PROPS['C09'] = {
              'pre-kernel failure => error, no seccomp(2) call, no field changed; Supported() true and changes nothing; a history is non-trivial iff a refused or failed load is followed by a further step; '
              'distinct by hash of the case JSON'),
     'assumptions': _KERNEL_ASSUMPTIONS + ['fault kinds are the kernel\'s own refusal modes, provoked by crafted process states; they are enumerated by class, not by injection'],
-    'required_classes': {'all': ['not-attached:EINVAL-oversize-program', 'not-attached:EINVAL-unknown-flag-bits', 'not-attached:EACCES-no-privilege', 'not-attached:thread-sync-refused',
+    'required_classes': {'all': ['not-attached:EINVAL-oversize-program', 'not-attached:EINVAL-unknown-flag-bits', 'not-attached:EACCES-no-privilege', 'not-attached:thread-sync-refused', 'not-attached:ENOSYS-seccomp-unavailable',
                                  'pre-kernel-failure-with-nnp-requested', 'supported-probe', 'supported-after-a-load', 'attached', 'thread-sync-attached', 'uid:0', 'uid:65534']},
     'units': [
         {'test': 'TestC09Histories', 'checks': {'quick': 640, 'thorough': 12000}, 'shards': {'quick': 16, 'thorough': 16}, 'helpers': _KCHILD,
@@ -322,7 +322,7 @@ PROPS['C10'] = {
              'N >= 2, at least two different states are present and at least one thread was inside a system call; distinct by hash of the case JSON'),
     'assumptions': _KERNEL_ASSUMPTIONS + ['schedules are sampled by perturbation (thread states, GOMAXPROCS, delays), not enumerated: the harness does not own the kernel scheduler'],
     'required_classes': {'all': ['flag:0', 'flag:1', 'flag:2', 'flag:3', 'state:spin', 'state:nanosleep', 'state:read', 'state:futex', 'state:spawner', 'thread-created-after-load',
-                                 'threads>=25', 'strace-flags-word'],
+                                 'threads>=25', 'strace-flags-word', 'fault:seccomp-ENOSYS', 'fault:another-thread-carries-its-own-filter'],
                          'thorough': ['threads:64']},
     'units': [
         {'test': 'TestC10ThreadSync', 'checks': {'quick': 400, 'thorough': 8000}, 'shards': {'quick': 16, 'thorough': 16}, 'helpers': _KCHILD,
@@ -342,7 +342,7 @@ PROPS['C11'] = {
              'prctl then seccomp with the same tid; a case is non-trivial iff unprivileged, requested and the control goroutine migrated under the same perturbation; distinct by hash of the case JSON'),
     'assumptions': _KERNEL_ASSUMPTIONS + ['the decisive goroutine schedule is forced through the schedule-point hook; other schedules are not enumerated'],
     'required_classes': {'all': ['uid:%d/nnp:%s' % (u, n) for u in (0, 65534) for n in ('true', 'false')] +
-                         ['unprivileged+nnp+migrating-perturbation', 'unprivileged-load-refused', 'control-goroutine-migrated', 'strace-order-and-thread']},
+                         ['unprivileged+nnp+migrating-perturbation', 'unprivileged-load-refused', 'control-goroutine-migrated', 'strace-order-and-thread', 'after-loads-on-other-threads']},
     'units': [
         {'test': 'TestC11NoNewPrivs', 'checks': {'quick': 640, 'thorough': 12000}, 'shards': {'quick': 16, 'thorough': 16}, 'helpers': _KCHILD,
          'timeout': {'quick': 500, 'thorough': 3300}},
